@@ -64,10 +64,10 @@ def space_for_count(n):
     with: n must be the row count of an existing table; the new array is positional (no labels), a DataFrame built
     from it gets a RangeIndex over the same positions"""
     cx = ctx()
-    nt = to_z3(n)
+    nt = z3.simplify(to_z3(n))
     best = None
     for sp in getattr(cx, "spaces", []):
-        if to_z3(sp.n).eq(nt):
+        if z3.simplify(to_z3(sp.n)).eq(nt):
             if sp.is_range:
                 return sp
             best = best or sp
@@ -211,7 +211,11 @@ class GVec(_Generic):
                 return pres
             raise Unsupported("membership of a foreign value in a column's key set")
         return KeySet(member, own)
+    target_space = None  # for vectors of row positions into another table (KD-tree results, arange)
+
     def __getitem__(self, k):
+        if isinstance(k, GVec) and isinstance(k.val, SV) and k.val.isint:
+            return _take_rows(self, k)
         if isinstance(k, GVec):  # boolean mask
             return _mask_vec(self, k)
         if isinstance(k, slice) and k == slice(None):
@@ -317,6 +321,40 @@ def _filter_space(space, mask_true=False):
     sp = Space(parent=space, tag="f", label_id=space.label_id)
     cx.assume(to_z3(sp.n) <= to_z3(space.n))
     return sp
+
+
+def _take_rows(arr, idx):
+    """arr[idx] where idx is a vector (one entry per row of ANOTHER layout) of row positions into arr: the result lives in
+    idx's layout; its generic row is arr's row at position idx -- obtained by substituting arr's position variable.
+    Requires arr's values to be expressed as functions of its row position (pos_frame inputs)."""
+    pos_arr = RowPos(arr.space).val.t
+    it = idx.val.t
+    if idx.space.pos_id == arr.space.pos_id and it.eq(pos_arr):
+        return arr  # identity selection (np.arange(n))
+    ctx().oblige("safe.index-in-range", z3.And(it >= 0, it < to_z3(arr.space.n)), kind="safe", detail="row positions used as a fancy index must lie inside the indexed table")
+    def sub(v):
+        if isinstance(v, SV):
+            return SV(z3.substitute(v.t, (pos_arr, it)))
+        return v
+    pres = z3.substitute(arr.present, (pos_arr, it)) if not z3.is_true(arr.present) else arr.present
+    if isinstance(arr, RowArr):
+        return RowArr([sub(v) for v in arr.vals], idx.space, z3.And(idx.present, pres))
+    return GVec(sub(arr.val), idx.space, z3.And(idx.present, pres), arr.kind, arr.name)
+
+
+def pos_frame(cols, prefix, space=None, angle_cols=()):
+    """an input table whose column values are uninterpreted functions of the row position (so that rows can be picked by
+    position): row[c] = F_c(pos)"""
+    from .. import theory
+    sp = space or Space(tag=prefix)
+    pos = RowPos(sp).val.t
+    row = {}
+    for c in cols:
+        F = z3.Function(f"{prefix}{c}", z3.IntSort(), z3.RealSort())
+        row[c] = SV(F(pos))
+    fr = GFrame(cols, row, sp)
+    fr.fn_prefix = prefix
+    return fr
 
 
 def _mask_vec(v, m):
@@ -492,8 +530,13 @@ class RowArr(_Generic):
                     return self._new(self.vals[c])
                 if isinstance(c, list):
                     return self._new([self.vals[i] for i in c])
+            if isinstance(r, GVec) and isinstance(r.val, SV) and r.val.isint:
+                t = _take_rows(self, r)
+                return t[(slice(None), c)]
             if isinstance(r, SV) or isinstance(r, int):
                 raise Unsupported("row access by position in a per-row array")
+        if isinstance(key, GVec) and isinstance(key.val, SV) and key.val.isint:
+            return _take_rows(self, key)
         if isinstance(key, GVec):  # boolean mask rows
             _same_space(self.space, key.space, "boolean mask")
             sp = _filter_space(self.space)
